@@ -175,6 +175,7 @@ def search(run, info):
     # ... and the other rule visitors against their Coq models (facts of the resolved library), on the same sample
     rl_n, rl_bad = rules_corr.check(run, [[(f[0], bytes.fromhex(f[1]).decode("utf-8")) for f in c["files"]] for c in cases[::step]], info, "c03")
     ty_n, ty_bad = rules_corr.check_types(run, [[(f[0], bytes.fromhex(f[1]).decode("utf-8")) for f in c["files"]] for c in cases[::step]], info, "c03")
+    ek_n, ek_bad = rules_corr.check_exprkind(run, [[(f[0], bytes.fromhex(f[1]).decode("utf-8")) for f in c["files"]] for c in cases[::step]], info, "c03")
     tab = {}
     for i, ((code, what, fl, layout), r) in enumerate(zip(meta, res)):
         run.count((code, tuple(fl)), True, "%s:%s" % (code, layout))
